@@ -12,6 +12,7 @@ proof  : props/C07.v.
 oracle : set-based closure / name / complement / boundary-default check on the real Basis objects.
 """
 import ast
+import os
 
 import numpy as np
 
@@ -735,6 +736,8 @@ def run(ctx):
         shutil.copy(src, os.path.join(ctx.bdir, 'dyn', 'C04Tie.v'))
         ctx.compile_dyn(['dyn/C04Tie.v'] + ctx.copy_dyn())
         ctx.prove()
+    if gen_ok and not ctx.quick():
+        trace_instances(ctx)
     rng = np_seed(ctx, 7)
     cases = []
     nctx = 0
@@ -801,6 +804,108 @@ def run(ctx):
                        per_file=min(400, -(-len(cases) // 4)), defs=CORR_DEFS)
         for i in bad or []:
             ctx.log('disagreeing context:', cases[i][2][0], cases[i][2][1])
+
+
+def _try_all(ctx, head, defs):
+    """cheap pre-check that every class passes tclass_ok (one file); False -> find the failing ones class by class"""
+    ctx.write_gen('C07_TC_all', head + ''.join(defs.values()))
+    return ctx.coqc('gen/C07_TC_all.v', 600)[0]
+
+
+def trace_instances(ctx):
+    """thorough tier: discharge the abstract hypothesis of C07_trace_support on group F's generated element list.
+    Regenerates C09's polynomials and C03's trace certificates (their generators are used as libraries), compiles them in
+    this build directory, and proves per class  tclass_ok = true  (C03's attached local indices are rows of attached
+    (kind, slot)s of the C04 layout), then the theorem over all classes."""
+    from .. import c03_gen, c03_oracle, c09_gen
+    from ..c09_build import compile_generated
+    from . import c03 as C03
+    known = set(ctx.known.findings.get('C03', {}))
+    try:
+        chunks9, _, info9, translated = C03._quiet(c09_gen.generate)
+        claims = C03._quiet(c03_oracle.claims)
+        conforming = [k for k, v in claims.items() if v[1].split('|')[0] in C03.CONFORMING_KINDS]
+        chunks3, summ3, info3 = c03_gen.generate(translated, conforming, known_keys=known)
+    except TranslateError as e:
+        ctx.broke('translator', 'c09_gen / c03_gen (used as libraries by C07)', e)
+        return
+    need = set(info3['sources'])
+    nob = len(ctx.obligations)
+    ok9, _ = compile_generated(ctx, {k: v for k, v in chunks9.items() if k in need}, info9, tag='C09')
+    ok3, _ = compile_generated(ctx, chunks3, info3, tag='C03') if ok9 else (False, None)
+    del ctx.obligations[nob:]            # those lemmas are C09's / C03's obligations, not C07's
+    if not ok3:
+        ctx.broke('proof', 'C07 trace instances', 'the C09 / C03 generated files did not compile')
+        return
+    ctx.write_gen('C03_Traces', summ3)
+    ok, out, err, _ = ctx.coqc('gen/C03_Traces.v', 400)
+    if not ok:
+        ctx.broke('proof', 'gen/C03_Traces.v', err[-500:])
+        return
+    groups = sorted(chunks3)
+    head = ('(* GENERATED by vlib/props/c07.py — do not edit *)\nFrom Coq Require Import List Arith QArith Ring_theory.\nImport ListNotations.\n'
+            'Require Import Model.C03_Trace Proofs.C03_TraceProofs Model.C04_Dofs Proofs.C04_DofsProofs Model.C07_Query '
+            'Proofs.C07_QueryProofs Proofs.C07_TraceProofs Proofs.C07_TraceC03Proofs.\n'
+            + ''.join(f'Require Import Gen.{g}.\n' for g in groups) + 'Require Import Gen.C03_Traces.\nLocal Open Scope nat_scope.\n')
+    defs = {}
+    for n in info3['names']['traced']:
+        e = translated[n].elem
+        rd = e.refdom
+        d = int(rd.dim())
+        fac = [[int(x) for x in r] for r in rd.facets]
+        edg = [[int(x) for x in r] for r in (rd.edges or [])] if d == 3 else []
+        lst = lambda m: clist([cnats(r) for r in m]) if m else '(@nil (list nat))'
+        defs[n] = (f'Definition {n}_c : tclass := mkTclass {n}_t {d} {int(e.nodal_dofs)} {int(e.edge_dofs)} {int(e.facet_dofs)} '
+                   f'{int(e.interior_dofs)} {int(rd.nnodes)} {lst(fac)} {lst(edg)}.\n'
+                   f'Lemma {n}_c_ok : tclass_ok {n}_c = true.\nProof. vm_compute. reflexivity. Qed.\n')
+    # all classes in one file first; only if that fails, class by class to name the ones that do not fit
+    good = list(defs)
+    if os.environ.get('C07_TC_PER_CLASS') or not _try_all(ctx, head, defs):
+        for n in defs:
+            ctx.write_gen(f'C07_TC_{n}', head + defs[n])
+        res = ctx.coqc_many([f'gen/C07_TC_{n}.v' for n in defs], timeout=300, jobs=4)
+        good = [n for n in defs if res[f'gen/C07_TC_{n}.v'][0]]
+    skipped = [n for n in defs if n not in good]
+    ctx.extra['trace_support_classes'] = good
+    ctx.extra['trace_support_classes_not_instantiated'] = skipped
+    ctx.log(f'trace_support instantiated for {len(good)} of {len(defs)} traced classes; not: {skipped}')
+    body = ''.join(defs[n] for n in good)
+    body += 'Definition trace_classes : list tclass := ' + clist([f'{n}_c' for n in good]) + '.\n'
+    body += ('Lemma trace_classes_ok : Forall (fun c => tclass_ok c = true /\\ telem_traces_ok (tc_t c) = true) trace_classes.\nProof.\n'
+             '  unfold trace_classes.\n' + ''.join(f'  apply Forall_cons; [split; [exact {n}_c_ok | exact {n}_traces]|].\n' for n in good)
+             + '  apply Forall_nil.\nQed.\n')
+    body += '''
+(* for EACH of these element classes (polynomials regenerated from the real lbasis, trace identities decided by C03's checker),
+   every commutative ring over Q, every well-formed topology and every facet selection F: every trace component, at every point
+   of a local facet of a cell whose attached entities lie in the closure of F, of  sum_d w(d) phi_d  is the same for all
+   coefficient vectors that agree on the DOFs get_facet_dofs(F) returns *)
+Theorem C07_trace_support_every_traced_class : forall c, In c trace_classes ->
+  forall (R : Type) (rO rI : R) (radd rmul rsub : R -> R -> R) (ropp : R -> R) (req : R -> R -> Prop) (phi : Q -> R),
+    Equivalence req -> ring_eq_ext radd rmul ropp req -> ring_theory rO rI radd rmul rsub ropp req ->
+    ring_morph rO rI radd rmul rsub ropp req 0%Q 1%Q Qplus Qmult Qminus Qopp Qeq_bool phi ->
+  forall nv ne nf nt t t2e t2f,
+    wf (tc_dim c) (tc_fd c) nv ne nf nt t t2e t2f ->
+    length t = tc_nn c -> length t2e = length (tc_edges c) -> length t2f = length (tc_facets c) ->
+  forall dofnames offs facets f2e dim3 F,
+    (forall f, In f F -> f < nf) -> (forall f v, In f F -> In v (nth f facets []) -> v < nv) ->
+    (forall row f, In row f2e -> In f F -> nth f row 0 < ne) ->
+  forall e sidx, e < nt -> sidx < length (tc_facets c) ->
+    (forall kd s', att_of (tc_facets c) (tc_edges c) sidx kd s' = true -> s' < nslots t t2e t2f kd ->
+       facet_selected facets f2e dim3 F kd (slot_ent t t2e t2f kd s' e)) ->
+  forall (ci : nat) (sp : nat -> R) (w w' : nat -> R),
+    let D := dofs_init (tc_dim c) (tc_nd c) (tc_ed c) (tc_fd c) (tc_id c) 0 nv ne nf nt t t2e t2f in
+    (forall d, In d (flatten D (get_facet_dofs D dofnames offs (tc_nd c) (tc_ed c) (tc_fd c) facets f2e dim3 F [])) -> w d = w' d) ->
+    req (trace03 R rO rI radd rmul phi (tc_t c) (tc_dim c) (tc_nd c) (tc_ed c) (tc_fd c) (tc_id c) nv ne nf nt t t2e t2f
+                 (nth sidx (t_slots (tc_t c)) dslot) ci sp e w)
+        (trace03 R rO rI radd rmul phi (tc_t c) (tc_dim c) (tc_nd c) (tc_ed c) (tc_fd c) (tc_id c) nv ne nf nt t t2e t2f
+                 (nth sidx (t_slots (tc_t c)) dslot) ci sp e w').
+Proof.
+  intros c Hc. destruct (proj1 (Forall_forall _ _) trace_classes_ok c Hc) as [H1 H2]. exact (trace_support_class c H1 H2).
+Qed.
+Print Assumptions C07_trace_support_every_traced_class.
+'''
+    ctx.write_gen('C07_TraceInst', head + body)
+    ctx.compile_dyn(['gen/C07_TraceInst.v'], timeout=600)
 
 
 def replay(ctx, data):
